@@ -862,7 +862,14 @@ pub fn read_msl(module: &ast::Module) -> Emitted {
     for d in &module.root_definitions {
         match d {
             ast::RootDefinition::Struct(sd) => {
-                let Some(n) = sd.name.node.strip_prefix("ArgumentBuffer").and_then(|n| n.parse::<u32>().ok()) else { continue };
+                // an argument buffer struct is recognised by what it is - a struct with [[id(n)]] members - not by the name
+                // the generator happens to give it; the bind group is the number the generated name ends in
+                let has_id_member = sd.members.iter().any(|m| matches!(m, ast::StructEntry::Variable(v) if v.attributes.iter().any(|a| attr_is(a, &["id"]))));
+                if !has_id_member {
+                    continue;
+                }
+                let digits: String = sd.name.node.chars().rev().take_while(|c| c.is_ascii_digit()).collect::<Vec<_>>().into_iter().rev().collect();
+                let Some(n) = digits.parse::<u32>().ok() else { continue };
                 em.has_argument_buffers = true;
                 for m in &sd.members {
                     let ast::StructEntry::Variable(m) = m else { continue };
@@ -2236,7 +2243,7 @@ pub fn run(ctx: &Ctx) -> i32 {
     rep.cov("full_alphabet_declarations", Json::Int(full.len() as i64));
     rep.cov("target_configs", Json::Arr(ALL_CFGS.iter().map(|c| c.name().into()).collect()));
     rep.assumptions = vec![
-        "an 'externally bound declaration in the source' is one that carries register(...), [[vk::binding]], [[vk::offset]] inside InlineDescriptorN, or [[id(n)]] inside ArgumentBufferN; unannotated globals ($Globals members, Metal static samplers) are outside the property".into(),
+        "an 'externally bound declaration in the source' is one that carries register(...), [[vk::binding]], [[vk::offset]] inside InlineDescriptorN, or [[id(n)]] inside an argument buffer struct (a struct with [[id]] members, whatever its generated name, whose trailing number is the bind group); unannotated globals ($Globals members, Metal static samplers) are outside the property".into(),
         "HLSL is re-read by parsing the emitted text with rssl's own parser; Metal is re-read from the tree handed to the formatter (hook H1), accepted only if formatting that tree reproduces the emitted bytes".into(),
         "descriptor type is compared through a table written from the doc comments of ir/src/export.rs (declared type -> describable descriptor types; ByteAddressBuffer may be ByteBuffer or BufferAddress, metal::sampler either sampler type; a uint64_t is a BufferAddress / RwBufferAddress only as a [[vk::offset]] member of InlineDescriptorN, a declaration carrying a descriptor slot must be declared with a resource type); unbounded arrays are compared for presence, group, slot, type and count == None only on targets that accept them".into(),
         "the emitted source has no bindless marker: is_bindless is compared with the [[rssl::bindless]] attribute of the input declaration of that name".into(),
